@@ -17,6 +17,7 @@
 from types import FrameType
 from typing import Optional, TYPE_CHECKING
 
+from deep import logging
 from deep.processor.context.action_context import ActionContext
 from deep.processor.context.action_results import ActionResult, ActionCallback
 
@@ -42,7 +43,11 @@ class SpanActionCallback(ActionCallback):
         :return: True, to keep this callback until next match.
         """
         for span in self.__spans:
-            span.close()
+            try:
+                span.close()
+            except Exception:
+                # a span that cannot be closed costs only itself, the spans of the other plugins are still closed
+                logging.exception("Failed to close span %s", span)
         return False
 
 
@@ -86,7 +91,12 @@ class SpanActionContext(ActionContext):
         spans = []
 
         for span_processor in self.trigger_context.config.span_processors:
-            span = span_processor.create_span(name, self.trigger_context.id, self.location_action.tracepoint.id)
+            try:
+                span = span_processor.create_span(name, self.trigger_context.id, self.location_action.tracepoint.id)
+            except Exception:
+                # a plugin that cannot create its span costs only its own span
+                logging.exception("Failed to create span %s with %s", name, span_processor)
+                continue
             if span:
                 spans.append(span)
 
